@@ -178,6 +178,7 @@ def _main(args, pid, tier, seed, t0, mod, builds, scratch):
         with open(args.replay) as f:
             rp = json.load(f)
         units = []
+        seed = int(rp.get("seed", seed))  # the recorded case is defined by the seed it was found with
         for b in names:
             u = dict(rp["unit"])
             u["build"] = b
